@@ -3,5 +3,5 @@
 Require Extraction.
 Require Import ExtrOcamlBasic.
 From SWH.model Require Import Swhid.
-Extraction "extract/C08/model.ml" mk_core mk_ext mk_q to_extended to_qualified
+Extraction "extract/C08/model.ml" mk_core mk_ext mk_q mk_core_nv mk_ext_nv mk_q_nv to_extended to_qualified
   print_core print_q parse_core parse_ext parse_q lang_core lang_ext lang_q.
